@@ -96,6 +96,7 @@ func genC08(r *Run) {
 				out[j] ^= 0xa5
 			}
 			evals++
+			trackOutput(r, "dhcpv6 message", m.ToBytes())
 			if d := twoOutputs(m.ToBytes); d != "" {
 				r.Fail("v6-outputs-share-memory", trunc(hx(w), 3000), d)
 			}
@@ -202,6 +203,11 @@ func genC08(r *Run) {
 			if out2 := p.ToBytes(); !bytes.Equal(out2, ref) {
 				r.Fail("v4-output-aliased", trunc(hx(w), 3000), "")
 			}
+			trackOutput(r, "dhcpv4 packet", p.ToBytes())
+			trackOutput(r, "dhcpv4 Options", p.Options.ToBytes())
+			if ra := p.RelayAgentInfo(); ra != nil {
+				trackOutput(r, "dhcpv4 relay agent information", ra.ToBytes())
+			}
 			if d := twoOutputs(p.ToBytes); d != "" {
 				r.Fail("v4-outputs-share-memory", trunc(hx(w), 3000), d)
 			}
@@ -290,4 +296,18 @@ func twoOutputs(enc func() []byte) string {
 		}
 	}
 	return ""
+}
+
+// trackOutput: an encoding returned earlier - of any value - must still read the same after other values were encoded
+var (
+	prevOut, prevSnap []byte
+	prevName          string
+)
+
+func trackOutput(r *Run, name string, out []byte) {
+	if prevOut != nil && !bytes.Equal(prevOut, prevSnap) {
+		r.Fail("outputs-of-different-values-share-memory", prevName+" then "+name,
+			"the encoding of the first value changed when the second was encoded: "+firstDiff(hx(prevSnap), hx(prevOut)))
+	}
+	prevOut, prevSnap, prevName = out, append([]byte{}, out...), name
 }
